@@ -137,6 +137,9 @@ func (l *Lexer) restore(s lexerSnapshot) {
 }
 
 func (l *Lexer) NextToken() Token {
+	// Invalid characters are skipped by jumping back here, not by recursion: one stack
+	// frame per skipped character overflows the goroutine stack on a long run of them.
+skipped:
 	l.skipWhitespace()
 
 	// 记录token开始位置
@@ -239,7 +242,7 @@ func (l *Lexer) NextToken() Token {
 			l.errorRecovery.AddError(err)
 		}
 		l.readChar()
-		return l.NextToken() // 跳过无效字符，继续解析
+		goto skipped // 跳过无效字符，继续解析
 	case '\'':
 		return l.readStringToken(tokenPos, tokenLine, tokenColumn)
 	case '"':
@@ -275,7 +278,7 @@ func (l *Lexer) NextToken() Token {
 			l.errorRecovery.AddError(err)
 		}
 		l.readChar()
-		return l.NextToken() // 跳过无效字符，继续解析
+		goto skipped // 跳过无效字符，继续解析
 	}
 
 	return Token{Type: TokenEOF, Pos: tokenPos, Line: tokenLine, Column: tokenColumn}
